@@ -45,9 +45,21 @@ def hook(rd, e, st, ctx):
     return NotImplemented
 
 
+def generic_eccentricity(c):
+    """Standing assumption of the formula rules: the eccentricity is a generic one (0.08).  A branch condition that involves nothing but an
+    eccentricity and constants is decided with it; the branch cut this way is the business of the path rule A8."""
+    if not isinstance(c, sp.Basic) or not c.free_symbols:
+        return None
+    if not all(s_.name in ('arg:e', 'this.e_', 'ellipsoid.e', 'e') for s_ in c.free_symbols):
+        return None
+    v = c.subs({s_: sp.Rational(8, 100) for s_ in c.free_symbols})
+    return True if v == sp.true else False if v == sp.false else None
+
+
 def read(fx, f):
     rd = sym.Reader(fx, call_hook=hook)
     rd.atoms = set(ATOMS)
+    rd.assume = generic_eccentricity
     return rd, rd.run(f)
 
 
@@ -89,9 +101,146 @@ def run(fx, R, tier):
     for f_ in (fsec, ftan, ffor, finv, fiso, flat, fN):
         epure.check(fx, R, 'A7', f_, 'LambertConverter::%s/%d' % (f_['name'], len(f_['params'])), fx.rel(f_['loc']))
     check_definedness(fx, R, fsec, rsec, ssec, ftan, rtan, stan, ffor, rfor, sfor, finv, rinv, sinv)
+    check_helper_paths(fx, R, fiso, flat, [p_ for r_ in (rsec, rtan, rfor, rinv) for p_ in r_.pruned])
     from . import C03_alg
     C03_alg.run(fx, R, dict(fsec=fsec, rsec=rsec, ssec=ssec, ftan=ftan, rtan=rtan, stan=stan, ffor=ffor, rfor=rfor, sfor=sfor,
                             finv=finv, rinv=rinv, sinv=sinv, fiso=fiso, flat=flat, fN=fN))
+
+
+def check_helper_paths(fx, R, fiso, flat, pruned):
+    """A8: every path of the two helpers on witness (latitude, eccentricity) pairs of the quantifier, e = 0 (sphere) included.
+    computeIsometricLatitude must return L(lat, e) = atanh(sin lat) - e atanh(e sin lat); a path of computeLatitude that returns before
+    the iteration must return lat when handed L(lat, e).  The formula rules read the helpers under the assumption of a generic eccentricity;
+    the branches that assumption cut are accounted for here."""
+    import itertools
+    lat, e = S('arg:latitude'), S('arg:e')
+    Ltrue = lambda la, ee: sp.atanh(sp.sin(la)) - ee * sp.atanh(ee * sp.sin(la))
+    LATS = (sp.Rational(3, 10), -sp.Rational(9, 10), sp.Rational(6, 5), sp.Rational(1, 100))
+    ES = (sp.Integer(0), sp.Rational(1, 10 ** 12), sp.Rational(1, 1000), sp.Rational(5, 100), sp.Rational(818, 10000), sp.Rational(1, 10))
+
+    def reach(st, env):
+        for c in st.cond:
+            if not isinstance(c[1], sp.Basic):
+                continue
+            v = c[1].subs(env)
+            if v not in (sp.true, sp.false) and hasattr(v, 'lhs'):
+                v = v.func(sp.N(v.lhs, 40), sp.N(v.rhs, 40))
+            if v not in (sp.true, sp.false):
+                return None
+            if bool(v) != c[2]:
+                return False
+        return True
+    covered = set()
+    # ---- forward helper ----
+    try:
+        ps = sym.Reader(fx).run(fiso)
+    except sym.Unsupported as u:
+        ps = None
+        R.undecided('A8', 'computeIsometricLatitude:paths', str(u))
+    for st in ps or []:
+        desc = ' && '.join(('' if c[2] else '!') + '(' + c[0] + ')' for c in st.cond)
+        inst = 'computeIsometricLatitude:path[%s]' % desc
+        covered |= {c[0] for c in st.cond}
+        if not isinstance(st.ret, sp.Basic):
+            R.undecided('A8', inst, 'returned value not readable')
+            continue
+        bad, n_, unknown = None, 0, False
+        for (la, ee) in itertools.product(LATS, ES):
+            env = {lat: la, e: ee}
+            r_ = reach(st, env)
+            if r_ is None:
+                unknown = True
+            if not r_:
+                continue
+            try:
+                got = sp.N(st.ret.subs(env), 40)
+                want = sp.N(Ltrue(la, ee), 40)
+                err = abs(got - want)
+            except (TypeError, ValueError):
+                unknown = True
+                continue
+            if not (got.is_number and err.is_number and err.is_real is not None):
+                unknown = True
+                continue
+            n_ += 1
+            if not err.is_real or err > sp.Float('1e-12'):
+                bad = bad or (la, ee, got, want)
+        if bad:
+            R.violated('A8', 'computeIsometricLatitude:path-value', 'on the path [%s] the isometric latitude of latitude %s rad with eccentricity %s is returned as %s; it is %s (atanh(sin lat) - e atanh(e sin lat)): '
+                       'with another function of the latitude the meridian scale no longer equals the parallel scale (not conformal) and the standard parallels are not true to scale; the quantifier has every '
+                       'eccentricity in [0, 0.1]' % (desc, bad[0], sp.N(bad[1], 3), sp.N(bad[2], 12), sp.N(bad[3], 12)), fx.rel(fiso['loc']), 'E-ORD')
+        elif unknown:
+            R.undecided('A8', inst, 'path condition or value not evaluable on the witness pairs')
+        elif n_ == 0:
+            R.holds('A8', inst, 'not taken by any witness (latitude, eccentricity) pair of the quantifier', fx.rel(fiso['loc']), 'E-ORD')
+        else:
+            R.holds('A8', inst, 'equals atanh(sin lat) - e atanh(e sin lat) on the %d witness pairs that take it' % n_, fx.rel(fiso['loc']), 'E-ORD')
+    # ---- inverse helper: returns before the iteration ----
+    from .. import earlyexit
+    top = flat['body']['s'] if flat.get('body') and flat['body'].get('k') == 'Compound' else []
+    li = next((i_ for i_, x in enumerate(top) if x.get('k') in ('For', 'While', 'Do')), None)
+    if li is None:
+        R.undecided('A8', 'computeLatitude:paths', 'no iteration found at the top level')
+    else:
+        rd = sym.Reader(fx)
+        ctx = {'this': ('this',), 'fn': flat, 'depth': 0}
+        st0 = sym.State()
+        Liso = S('arg:' + flat['params'][0]['name'])
+        ee_ = S('arg:' + flat['params'][1]['name'])
+        for p in flat['params']:
+            st0.locals[p['id']] = S('arg:' + p['name'])
+        try:
+            states = [st0]
+            for x in top[:li]:
+                nxt = []
+                for s_ in states:
+                    nxt += [s_] if s_.returned else rd.ex(x, s_, ctx)
+                states = nxt
+            early = [s_ for s_ in states if s_.returned]
+        except sym.Unsupported as u:
+            early = None
+            if earlyexit.exits_before(top, li):
+                R.undecided('A8', 'computeLatitude:paths', 'returns before the iteration, not interpretable: %s' % u)
+        for st in early or []:
+            desc = ' && '.join(('' if c[2] else '!') + '(' + c[0] + ')' for c in st.cond)
+            covered |= {c[0] for c in st.cond}
+            inst = 'computeLatitude:path[%s]' % desc
+            if not isinstance(st.ret, sp.Basic):
+                R.undecided('A8', inst, 'returned value not readable')
+                continue
+            bad, n_, unknown = None, 0, False
+            for (la, ee) in itertools.product(LATS, ES):
+                env = {Liso: Ltrue(la, ee), ee_: ee}
+                r_ = reach(st, env)
+                if r_ is None:
+                    unknown = True
+                if not r_:
+                    continue
+                try:
+                    got = sp.N(st.ret.subs(env), 40)
+                    err = abs(got - sp.N(la, 40))
+                except (TypeError, ValueError):
+                    unknown = True
+                    continue
+                if not (got.is_number and err.is_number and err.is_real is not None):
+                    unknown = True
+                    continue
+                n_ += 1
+                if not err.is_real or err > sp.Float('1e-11'):
+                    bad = bad or (la, ee, got)
+            if bad:
+                R.violated('A8', 'computeLatitude:path-value', 'on the path [%s], which returns before the iteration, the isometric latitude of %s rad (eccentricity %s) is mapped back to %s rad: '
+                           'projected -> geographic does not return the latitude (statement: 1e-11 rad)' % (desc, bad[0], sp.N(bad[1], 3), sp.N(bad[2], 12)), fx.rel(flat['loc']), 'E-ORD')
+            elif unknown:
+                R.undecided('A8', inst, 'path condition or value not evaluable on the witness pairs')
+            else:
+                R.holds('A8', inst, 'returns the latitude on the %d witness pairs that take it' % n_, fx.rel(flat['loc']), 'E-ORD')
+        if early is not None and not early:
+            R.holds('A8', 'computeLatitude:paths', 'no return before the iteration', fx.rel(flat['loc']), 'E-ORD')
+    # ---- every branch the generic-eccentricity assumption cut is one of the helper paths above ----
+    for (ctext, branch, loc, fq) in pruned:
+        if ctext not in covered:
+            R.undecided('A8', 'pruned:%s' % ctext, 'the formula rules assumed a generic eccentricity and did not follow the branch `%s` = %s in %s; no path rule covers it' % (ctext, branch, fq))
 
 
 def eval_atoms(rd, env, overrides):
